@@ -1,6 +1,6 @@
 """C03: every mutating contract method is inert without its required witnesses."""
 PROPS = {
-    "C03": dict(lean=["NeoFS.Props.C03"], driver=None, harness="access", monitors=["C03"], facts=["consts", "access"], diagnose="c03_diag",
+    "C03": dict(lean=["NeoFS.Props.C03"], driver=None, harness="access", monitors=["C03"], facts=["consts", "access", "footprint"], diagnose="c03_diag",
                 shards=dict(quick=4, thorough=12),
                 rule="static: every exported function of the 11 contracts translated to the inertness IR on this run; all valuations of each method's witness atoms decided by Lean's kernel. "
                      "dynamic (harness/access): EXHAUSTIVE product of every method of the 11 manifests compiled from the working tree (+ a second NeoFS deployment in vote mode) "
